@@ -160,12 +160,14 @@ InRange(seq, idx) == idx >= 0 /\ idx < Len(seq)
 
 \* The encoder puts None in front of a function's constants when the function has no docstring
 \* and the first constant it meets is a string without override (so that the string is not taken
-\* for a docstring).  The decoder accounts for it: if slot 0 really holds None the encoder's
-\* table is simulated with it, otherwise the string keeps its position.
+\* for a docstring).  The decoder accounts for it: if slot 0 really holds None and the string sits
+\* in slot 1 the encoder's table is simulated with the None, otherwise the string keeps its position
+\* (an operand with an override never triggers the rule).
 ConstUse(s, arg, c, h) ==
     LET key == c.const_keys[arg + 1]
         wouldPrepend == h.is_fn /\ h.doc = <<>> /\ DOMAIN s.ok.i2k = {} /\ c.const_is_str[arg + 1]
-        slot0None == c.const_keys[1] = c.none_key
+        \* the encoder will put the None in itself and then give this string slot 1
+        slot0None == arg = 1 /\ c.const_keys[1] = c.none_key
         ta0 == IF wouldPrepend /\ slot0None
                THEN [s.ok EXCEPT !.i2k = Put(@, 0, c.none_key), !.k2i = Put(@, c.none_key, 0)]
                ELSE s.ok
